@@ -248,6 +248,24 @@ def guard_conditions(fn: ast.AST, node: ast.AST) -> list[ast.AST]:
     return out
 
 
+def collaborator_attrs(ctx, cls) -> dict[str, str]:
+    """Attributes of `cls` that hold an instance of another class of the package (`self._history = _ValueHistory(...)`):
+    state kept inside such an object is mutated through its methods, which the attribute-level effect analysis cannot see."""
+    out = {}
+    for owner in ctx.ct.mro(cls):
+        for fn in owner.methods.values():
+            for st in ast.walk(fn):
+                if isinstance(st, ast.Assign) and len(st.targets) == 1 and is_self_attr(st.targets[0]) and isinstance(st.value, ast.Call):
+                    f = st.value.func
+                    name = f.id if isinstance(f, ast.Name) else None
+                    if name and name in owner.module.classes or (name and owner.module.imports.get(name) and
+                                                                  ctx.ct.class_of_dotted(owner.module.imports[name]) is not None):
+                        ci = ctx.ct.by_qual.get(f"{owner.module.name}.{name}") or ctx.ct.class_of_dotted(owner.module.imports.get(name, ""))
+                        if ci is not None and not ci.name.endswith(("Config", "State", "Info")) and ci.name != "BatchProcessor":
+                            out[st.targets[0].attr] = ci.name
+    return out
+
+
 def backing_attr(ctx, cls, prop: str) -> str:
     """Name of the private attribute behind a public property (`state_space` -> `_state_space`), read from the property's
     own return statement, so that renaming the private attribute does not matter."""
